@@ -245,6 +245,50 @@ def check_offset_td_sub(ctx, us):
         V(ctx, "offset-from_timedelta-truncation", f"Offset.from_timedelta({td!r}) = {o.seconds} s; truncating the fraction gives {want} s", case, o.seconds, want)
 
 
+def check_threads(ctx):
+    """The conversions are functions of their argument also when several threads convert at once (each thread its own offsets and values)."""
+    import sys
+    import threading
+    from pyoda_time import Instant, LocalDateTime, Offset, OffsetDateTime
+    rng = ctx.rng
+    bad = []
+    total = [0]
+
+    def worker(tid, seed):
+        import random
+        r = random.Random(seed)
+        offs = [tid * 1800 - 7200, -(tid * 900) - 60, r.randint(-64800, 64800)]
+        for k in range(250):
+            off = r.choice(offs); us = r.randint(10**15, 6 * 10**16)
+            naive = dt.datetime(1, 1, 1) + dt.timedelta(microseconds=us)
+            aware = naive.replace(tzinfo=dt.timezone(dt.timedelta(seconds=off)))
+            try:
+                odt = OffsetDateTime.from_aware_datetime(aware)
+                back = odt.to_aware_datetime()
+                ldt = LocalDateTime.from_naive_datetime(naive); nb = ldt.to_naive_datetime()
+                ins_ = Instant.from_aware_datetime(aware)
+                ok = (back == aware and back.utcoffset() == aware.utcoffset() and back.replace(tzinfo=None) == naive and odt.offset.seconds == off and nb == naive
+                      and ins_.to_datetime_utc() == aware)
+            except Exception as e:  # noqa: BLE001
+                ok = False; back = repr(e)
+            total[0] += 1
+            if not ok:
+                bad.append((repr(aware), repr(back))); return
+    old = sys.getswitchinterval()
+    try:
+        sys.setswitchinterval(1e-6)
+        for trial in range(2 if ctx.tier == "quick" else 12):
+            ths = [threading.Thread(target=worker, args=(i, rng.randrange(10**9))) for i in range(8)]
+            [t.start() for t in ths]; [t.join(600) for t in ths]
+            ctx.ev(); ctx.key(("threads", trial))
+            if bad: break
+    finally:
+        sys.setswitchinterval(old)
+    ctx.count("threaded_conversions", total[0])
+    if bad:
+        V(ctx, "concurrent-conversion-differs", f"with 8 threads converting at once, {bad[0][0]} came back as {bad[0][1]}", {"kind": "threads"}, bad[0][1], bad[0][0])
+
+
 def check_out_of_range(ctx):
     from pyoda_time import CalendarSystem, Instant, LocalDate, LocalDateTime, LocalTime, Offset
     from vf import gen
@@ -352,6 +396,7 @@ def run(ctx, shard):
               [rng.randint(-L18 - 2 * 10**6, L18 + 2 * 10**6) for _ in range(300)] + [rng.choice([-1, 1]) * (rng.randrange(64800) * 10**6 + rng.choice([1, 500000, 999999])) for _ in range(100)]:
         check_offset_td_sub(ctx, us)
     check_out_of_range(ctx)
+    check_threads(ctx)
     ctx.counters.setdefault("date", 0)
 
 
@@ -367,4 +412,5 @@ def replay(ctx, case):
     elif k == "timedelta": check_timedelta(ctx, case["us"], case["extra_ns"])
     elif k == "offset_td": check_offset_td(ctx, case["s"])
     elif k == "offset_td_sub": check_offset_td_sub(ctx, case["us"])
+    elif k == "threads": check_threads(ctx)
     else: check_out_of_range(ctx)
